@@ -192,7 +192,7 @@ func TestC01(t *testing.T) {
 		nv = 24
 	}
 	fc := &flowChecker{id: "C01", rec: rec, variants: c01Variants}
-	tp := &twoPass{id: "C01", salt: 1, checks: env.Pick(1200, 12000), rec: rec,
+	tp := &twoPass{id: "C01", salt: 1, checks: env.Pick(1200, 6000), rec: rec,
 		gen:   func(t *rapid.T) *flowCase { return genFlowCase(t, gogen.FlowProfile(off), nv) },
 		judge: fc.judge, pre: fc.pre, opt: native.Options{InProcess: true}}
 	tp.run(t)
